@@ -75,6 +75,11 @@ const CONFUSABLE: [(&str, &str); 8] = [
 ];
 
 pub fn key_name(style: u8, i: usize) -> String {
+    // names that look like the cache's own scratch files or index (styles 230..=239)
+    if (230..240).contains(&style) {
+        let suffix = [".tmp", ".TMP", ".tmp.tmp", ".1-0.tmp", ".idx", ".lock", ".meta", "~", ".part", ".bak"][usize::from(style - 230)];
+        return format!("listing{i}{suffix}");
+    }
     if style >= 240 {
         let (a, b) = CONFUSABLE[(i / 2 + usize::from(style - 240)) % CONFUSABLE.len()];
         let round = i / (2 * CONFUSABLE.len());
